@@ -828,7 +828,9 @@ var hostileVar = []int64{-2147483648, -2, -1, 0, 1, 65536, 2147483647, 429496729
 const lenMaxFields = 96
 const lenValues = 12 // hostile values + (true-1, true+1, rest+1)
 
-func LenCases() int { return len(WireKinds) * lenMaxFields * lenValues }
+// (x 2: the mutated frame delivered whole, or only up to just past the mutated
+// field, after which the connection ends)
+func LenCases() int { return len(WireKinds) * lenMaxFields * lenValues * 2 }
 
 func putVarint(v int64, zigzag bool) []byte {
 	var u uint64
@@ -845,10 +847,15 @@ func putVarint(v int64, zigzag bool) []byte {
 	return append(b, byte(u))
 }
 
+var lenfuzzCut = -1
+
 func lenfuzzScenario(s *Sim, params map[string]string) {
+	lenfuzzCut = -1
 	total := LenCases()
 	idx := int((s.T.Run*7919 + s.T.Seed*104729) % uint64(total))
 	x := idx
+	cutAfterField := x%2 == 1
+	x /= 2
 	vi := x % lenValues
 	x /= lenValues
 	fi := x % lenMaxFields
@@ -963,8 +970,22 @@ func lenfuzzScenario(s *Sim, params map[string]string) {
 		received = len(nf)
 		desc = fmt.Sprintf("case %d: %s v%d response, field %s (%s at byte %d, true value %d) set to %d", idx, k.name, r.Hdr.APIVersion, f.Path, f.Kind, f.Off, f.Value, val)
 		s.Count("fault:corrupt-length")
+		if cutAfterField && f.Off != 0 {
+			// the connection ends a little after the field: the decoder is left
+			// with the announced remainder of the frame and nothing to read
+			lenfuzzCut = f.Off + len(enc) + (idx/2)%3
+			if lenfuzzCut < len(nf) {
+				r.Fault = "cut-exact"
+				received = lenfuzzCut
+				desc += fmt.Sprintf(", frame delivered up to byte %d, then the connection is closed", lenfuzzCut)
+				s.Count("fault:cut-after-field")
+			} else {
+				lenfuzzCut = -1
+			}
+		}
 		return nf
 	}, true)
+	e.cl.CutExact = func(r *Req) (int, bool) { return lenfuzzCut, false }
 	s.AtEnd(func() {
 		switch {
 		case out.prepFailed != nil:
